@@ -243,7 +243,11 @@ func Cancellation(d *fw.Driver, res *fw.Result, seed int64, thorough bool) error
 				defer wg.Done()
 				defer close(it.done)
 				if it.kind == "sub" {
-					ch, err := cl.Sub(it.ctx, it.tok, -1)
+					sub := cl.Sub
+					if it.tok%2 == 1 {
+						sub = cl.SubBoth // the handler's channel type is `chan int`
+					}
+					ch, err := sub(it.ctx, it.tok, -1)
 					if err == nil && ch != nil {
 						for range ch {
 						}
@@ -323,7 +327,10 @@ func Cancellation(d *fw.Driver, res *fw.Result, seed int64, thorough bool) error
 			if it.doCancel {
 				continue
 			}
-			if c, known := e.H.C.CtxErr(it.tok); known && c && !e.H.C.Exited(it.tok) {
+			// (a unary handler that has returned has had its context released by the library: not a cancellation;
+			// the endless streams of this round end only when their context does)
+			endless := it.kind == "sub" || it.kind == "subslow"
+			if c, known := e.H.C.CtxErr(it.tok); known && c && (endless || !e.H.C.Exited(it.tok)) {
 				res.Add(fw.Finding{Kind: "monitor", Signature: sig + " spurious cancellation", Detail: fmt.Sprintf("the handler context of %s(%d) was cancelled although its caller did not cancel and the connection is healthy", it.kind, it.tok)})
 			}
 		}
